@@ -18,6 +18,8 @@ import importlib
 import io
 import json
 import multiprocessing as mp
+import signal
+import threading
 import os
 import shutil
 import sys
@@ -115,6 +117,14 @@ class Stats:
         self.harness_error = self.harness_error or o.harness_error
 
 
+class _CaseTimeout(BaseException):
+    """raised by the watchdog inside a running case (BaseException: must not be swallowed by `except Exception` on the way)"""
+
+
+def _on_alarm(signum, frame):
+    raise _CaseTimeout()
+
+
 class HarnessError(Exception):
     pass
 
@@ -149,13 +159,26 @@ def clean_cwd():
 def evaluate(mod, case, stats, known_open, shrinking=False, corner=False):
     """Run one case, update counters, return list of *new* (not known-open) signatures."""
     buf = io.StringIO()
+    limit = float(os.environ.get("VERIF_CASE_TIMEOUT", "120"))
+    armed = False
     try:
+        if limit > 0 and threading.current_thread() is threading.main_thread():
+            # watchdog: a call that never returns (an endless loop in the code under test) is no result at all;
+            # without it the whole check would hang instead of reporting
+            signal.signal(signal.SIGALRM, _on_alarm)
+            signal.setitimer(signal.ITIMER_REAL, limit)
+            armed = True
         with contextlib.redirect_stdout(buf), contextlib.redirect_stderr(buf):
             import warnings
 
             with warnings.catch_warnings():
                 warnings.simplefilter("ignore")
                 out = mod.run(case)
+    except _CaseTimeout as e:
+        frames = [f for f in traceback.extract_tb(e.__traceback__) if (os.sep + "cryocat" + os.sep) in f.filename]
+        where = frames[-1].name if frames else "harness"
+        out = Outcome()
+        out.fail(f"hang:{where}", f"the case did not finish within {limit:.0f} s (innermost cryoCAT function on the stack: {where})")
     except ValueError as e:
         # a comparison between a returned array and the expected one that numpy cannot even line up means the function
         # handed back an array of the wrong shape: that is a malformed result, not a harness problem
@@ -168,6 +191,8 @@ def evaluate(mod, case, stats, known_open, shrinking=False, corner=False):
     except Exception:  # harness / oracle bug: never a VIOLATION
         raise HarnessError(traceback.format_exc() + "\ncase=" + json.dumps(trunc(case), default=str)[:3000])
     finally:
+        if armed:
+            signal.setitimer(signal.ITIMER_REAL, 0)
         clean_cwd()
     if shrinking:
         stats.shrink_evaluations += 1
